@@ -163,6 +163,34 @@ theorem private_rejected (deps : List ModuleExports) (d : ModuleExports) (imp : 
 example : rejectedNames [⟨"m", ["open_"]⟩] ⟨.module, ["m", "secret"], false, 0⟩ [] = ["secret"] := by decide
 example : rejectedNames [⟨"m", ["open_"]⟩] ⟨.from_, ["m"], false, 0⟩ ["open_", "secret"] = ["secret"] := by decide
 
+/-- Renaming an import with `as` changes nothing about what is rejected. -/
+theorem alias_irrelevant (deps : List ModuleExports) (imp : Import) (items₁ items₂ : List ImportItem)
+    (h : items₁.map (·.name) = items₂.map (·.name)) :
+    rejectedItems deps imp items₁ = rejectedItems deps imp items₂ := by
+  unfold rejectedItems; rw [h]
+
+/-- A private name stays rejected under every alias — including an alias that is itself a `pub` name of the module. -/
+theorem private_rejected_under_alias (deps : List ModuleExports) (d : ModuleExports) (imp : Import)
+    (items : List ImportItem) (it : ImportItem)
+    (hform : imp.form = .from_)
+    (hfind : deps.find? (fun x => x.key == "_".intercalate imp.segments) = some d)
+    (hpriv : d.publicNames.contains it.name = false) (hin : it ∈ items) :
+    it.name ∈ rejectedItems deps imp items := by
+  unfold rejectedItems
+  apply private_rejected deps d imp _ it.name
+  · simpa [hform] using hfind
+  · exact hpriv
+  · exact Or.inl ⟨hform, List.mem_map.2 ⟨it, hin, rfl⟩⟩
+
+/-- Asking the local names instead lets `from m import secret as open_` through and rejects
+`from m import open_ as v` (kernel-checked witnesses for the seeded change C14-5). -/
+theorem local_name_check_is_wrong :
+    rejectedItemsByLocalName [⟨"m", ["open_"]⟩] ⟨.from_, ["m"], false, 0⟩ [⟨"secret", some "open_"⟩] = []
+    ∧ rejectedItems [⟨"m", ["open_"]⟩] ⟨.from_, ["m"], false, 0⟩ [⟨"secret", some "open_"⟩] = ["secret"]
+    ∧ rejectedItemsByLocalName [⟨"m", ["open_"]⟩] ⟨.from_, ["m"], false, 0⟩ [⟨"open_", some "v"⟩] = ["v"]
+    ∧ rejectedItems [⟨"m", ["open_"]⟩] ⟨.from_, ["m"], false, 0⟩ [⟨"open_", some "v"⟩] = [] := by
+  decide
+
 /-- A name is exported exactly when a `pub` declaration carries it: its own name, or — for a `pub` enum —
 one of its variants.  Nothing of a private declaration is ever exported. -/
 theorem exported_iff (ds : List MDecl) (n : String) :
